@@ -22,7 +22,7 @@ LEVEL = "exploration"
 TECHNIQUE = "bounded-exhaustive enumeration of model shapes x function-sharing patterns; generated MxlPy source is executed and the rebuilt model compared with the original"
 LEVEL_TEXT = (
     "Every model in the product of structural shapes (number of variables, 6 coefficient kinds, 5 derived shapes, "
-    "initial-assignment parameter, conditional/time-dependent rates) x 21 function-assignment patterns (incl. many-digit, very small and large literal values) is passed to "
+    "initial-assignment parameter, conditional/time-dependent rates) x 22 function-assignment patterns (incl. many-digit, very small and large literal values) is passed to "
     "generate_mxlpy_code; the source is exec'd, create_model() called, and names/kinds, initial values, parameter "
     "values and (at 4 states x 2 times) derived values, fluxes and derivatives are compared with the original "
     "(rtol 1e-12; printed literals carry 15 digits). Untranslatable functions must make generation raise."
@@ -53,7 +53,7 @@ PATTERNS = [
     "same-name-derived", "own-parameter-names-swapped", "shared-ia-and-derived", "ia-variable", "unit-variable",
     "unit-parameter", "locals-and-conditionals", "untranslatable", "same-name-coinciding-specialisation",
     "repeated-arg-same-specialisation", "hard-literals", "repeated-arg-name-clash", "ignored-param-repeated-last",
-    "ignored-param-repeated-first", "local-import-shadows-module-helper",
+    "ignored-param-repeated-first", "local-import-shadows-module-helper", "generator-internal-names",
 ]
 STATES = c07.STATES
 TIMES = c07.TIMES
@@ -135,6 +135,16 @@ def build_model(case):
         uses = [("rs", ["x1", "kc", "k1"]), ("rs2", ["kc", "kc", "k2"])]
         for name, args in uses if p.endswith("last") else uses[::-1]:
             m.add_reaction(name, F.ign_mid, args=args, stoichiometry={"x1": -1})
+    elif p == "generator-internal-names":
+        # components called like the names the generator makes up: init_<name> (helpers of initial assignments),
+        # <reaction>_stoich_<function> (helpers of computed coefficients), and plain function names
+        m.add_parameter("q4", InitialAssignment(fn=F.add2, args=["k1", "kc"]))
+        m.add_derived("init_q4", F.sub2, args=["x1", "k1"])
+        m.add_derived("init_q", F.mul2, args=["x1", "k2"])
+        m.add_derived("ma1", F.add2, args=["init_q4", "init_q"])
+        m.add_derived("r_in_stoich_half_plus", F.add2, args=["x1", "q4"])
+        m.add_reaction("add2", F.ma1, args=["ma1", "k1"], stoichiometry={"x1": -1})
+        m.add_reaction("rs", F.lin, args=["r_in_stoich_half_plus", "k1"], stoichiometry={"x1": -1})
     elif p == "local-import-shadows-module-helper":
         m.add_reaction("rs", F.local_import_fn, args=["x1", "k1"], stoichiometry={"x1": -1})
         m.add_reaction("rs2", F.module_helper_fn, args=["x1", "k2"], stoichiometry={"x1": -1})
